@@ -32,7 +32,7 @@ func (c09) Meta() fw.Meta {
 			"the oracle uses the clock the command printed; the symmetry relation is only judged when both runs printed the same clock",
 			"a glob pattern that matches nothing on the source side is not a 'missing file' and is not judged here (C16 covers it)",
 		},
-		Obligations: []string{"diff_runs", "clean_verdicts", "diff_verdicts", "records_checked", "self_diff", "identical_files", "ulp_apart", "signed_zero_equal", "nan_vs_nan_equal", "nan_vs_value", "missing_src", "missing_dest", "layout_mismatch_error", "symmetry_checked", "glob_one_differs", "glob_none_differs", "single_archive_selection", "remote_side_runs", "text_out_file_runs", "never_written_side", "symlinked_source_in_glob", "unclean_base_spelling", "remote_glob_runs", "both_sides_remote_runs", "both_sides_remote_long_archives", "runs_with_concurrent_clients", "concurrent_noise_requests_served", "server_socket_writes_delayed"},
+		Obligations: []string{"diff_runs", "clean_verdicts", "diff_verdicts", "records_checked", "self_diff", "identical_files", "ulp_apart", "signed_zero_equal", "nan_vs_nan_equal", "nan_vs_value", "missing_src", "missing_dest", "layout_mismatch_error", "symmetry_checked", "glob_one_differs", "glob_none_differs", "single_archive_selection", "remote_side_runs", "text_out_file_runs", "never_written_side", "symlinked_source_in_glob", "unclean_base_spelling", "remote_glob_runs", "both_sides_remote_runs", "both_sides_remote_long_archives", "runs_with_concurrent_clients", "concurrent_noise_requests_served", "server_socket_writes_delayed", "file_names_needing_query_escaping", "glob_with_mismatch_and_difference"},
 		Workers:     12,
 	}
 }
@@ -200,6 +200,10 @@ func (c09) Run(c *fw.Ctx) {
 		rel := fmt.Sprintf("f%d.wsp", i)
 		if sc.Glob && i == 2 {
 			rel = "f 2 x.wsp" // a name containing whitespace
+		}
+		if !sc.Glob && c.Index%2 == 0 {
+			rel = "f+0&x=y.wsp" // characters that mean something in a URL query (the remote side must get the very name)
+			c.Count("file_names_needing_query_escaping", 1)
 		}
 		sc.Files = append(sc.Files, rel)
 		cont := genContent(r, l, now, 0.3+0.6*r.Float64())
@@ -569,6 +573,27 @@ func (c09) Run(c *fw.Ctx) {
 					return
 				}
 			}
+		}
+	}
+	// ---- one glob run holding BOTH a pair with unequal layouts and a pair that differs: unequal layouts are an error,
+	// whatever else the run finds
+	if sc.Glob && nfiles >= 2 && extra == nil && toFile == "" && !c.Violated() {
+		other := model.Layout{Archs: append([]model.Arch(nil), l.Archs...), Method: l.Method, Xff: l.Xff}
+		other.Archs[len(other.Archs)-1].Points += 1 + uint32(r.Intn(4))
+		mi := r.Intn(2) // the mismatching pair comes first or second in glob order
+		writeFixture(filepath.Join(bBase, sc.Files[mi]), other, genContent(r, other, now, 0.5), now)
+		d := genContent(r, l, now, 0.6)
+		writeFixture(filepath.Join(bBase, sc.Files[1-mi]), l, d, now)
+		res3 := runCLI(c, mkArgs(aBase, bBase, pat)...)
+		c.Count("glob_with_mismatch_and_difference", 1)
+		if cliPanicked(res3) {
+			c.Violationf("panic", fw.J{"scenario": sc, "run": res3.brief()}, "diff panicked")
+			return
+		}
+		if res3.Exit != 2 {
+			c.Violationf("layout-mismatch-verdict", fw.J{"scenario": sc, "run": res3.brief(), "mismatching_file": sc.Files[mi], "differing_file": sc.Files[1-mi]},
+				"glob diff in which %s has unequal layouts and %s differs exited %d, want an error (2)", sc.Files[mi], sc.Files[1-mi], res3.Exit)
+			return
 		}
 	}
 	if nontrivial {
